@@ -256,9 +256,18 @@ func VerifC07Sequence(steps, firstOp, lean int) {
 			verif_assert(verifC07State(m, qk) == qst && verifC07State(m, pk) == st, "C07.seq: operations on one contact do not disturb the other")
 			continue
 		}
+		before := verif_appended()
 		err := verifC07Do(m, op, pk, raw, s, md)
 		ns, ev, we := verifC07Ref(op, st)
 		verif_assert((err == nil) == (we == 0), "C07.seq: allowed exactly when the lifecycle allows it")
+		if lean == 1 && err != nil && i < steps-1 {
+			// a refused operation appends nothing (asserted here and in VerifC07Guards), so the remainder of this sequence
+			// is a shorter sequence from the same log: covered by the jobs of that length
+			verif_assert(verif_appended() == before, "C07.seq: a refused operation appends nothing")
+			verif_assert(verifC07State(m, pk) == st, "C07.seq: reported state equals the reference lifecycle")
+			verif_reach("C07.seq.pruned")
+			return
+		}
 		if err == nil {
 			st = ns
 			if ev == protocoltypes.EventType_EventTypeAccountContactRequestOutgoingEnqueued || ev == protocoltypes.EventType_EventTypeAccountContactRequestIncomingReceived {
